@@ -16,7 +16,7 @@ def decor_spec(rng, sync, wrap_ok=True):
 
 
 def gen_base(rng, sid, family="base", n=None, q=None, refresh="auto", pop=None, allow_queue=False,
-             allow_stop=False, clients=None, fault=False, late_queue=False, ext=True):
+             allow_stop=False, clients=None, fault=False, late_queue=False, ext=True, tail=False):
     n = n if n is not None else rng.randint(1, 4)
     if q is None:
         q = rng.choice([-1, n, n + 1, 16])
@@ -161,6 +161,14 @@ def gen_base(rng, sid, family="base", n=None, q=None, refresh="auto", pop=None, 
         for c in range(nclients):
             for _ in range(rng.randint(0, 3)):
                 progs[c].insert(rng.randint(0, len(progs[c])), {"op": "refresh"})
+    if tail:
+        # quiet tail: every bar has exited before the last lines are written and Wait is called,
+        # so only the final render can carry them
+        for b in bars:
+            progs[0].append({"op": "barwait", "b": b})
+        for _ in range(rng.randint(1, 2)):
+            progs[0].append({"op": "write", "line": "T|tail|%d" % nw})
+            nw += 1
     # the main client waits, then reads the final state of every bar and makes late calls
     progs[0].append({"op": "wait"})
     for b in bars:
@@ -203,6 +211,11 @@ def family(name, rng, sid):
         return gen_base(rng, sid, "none", refresh="none", allow_stop=rng.random() < 0.3)
     if name == "fault":
         return gen_base(rng, sid, "fault", fault=True)
+    if name == "tail":
+        sc = gen_base(rng, sid, "tail", tail=True, clients=1, pop=rng.random() < 0.2)
+        sc["sched"]["tickw"] = 1
+        sc["sched"]["bias"] = ["ls:tick"]
+        return sc
     if name == "pop":
         return gen_base(rng, sid, "pop", pop=True, n=rng.randint(2, 4))
     raise ValueError(name)
